@@ -46,6 +46,7 @@ fn strat(max_ops: usize) -> impl Strategy<Value = Case> {
 
 fn monitors_oracle(c: &Case, ctx: &mut Ctx) -> CaseResult {
 	let mut sim = c.spec.build(true);
+	sim.min_reorg_floor = sim.chain.height();
 	let r = monitors_inner(c, ctx, &mut sim);
 	if ctx.replay && r.is_err() {
 		println!("==== history ====\n{}", dump_history(&sim));
@@ -56,11 +57,14 @@ fn monitors_oracle(c: &Case, ctx: &mut Ctx) -> CaseResult {
 fn monitors_inner(c: &Case, ctx: &mut Ctx, sim: &mut Sim) -> CaseResult {
 	let mut h = MonHarvest::new(sim, false);
 	let mut tags: Vec<&'static str> = vec![];
-	for op in c.ops.iter() {
+	for (k, op) in c.ops.iter().enumerate() {
 		let tag = apply(sim, &c.spec, op);
 		tags.push(tag);
 		if std::env::var("C12_NOHARVEST").is_err() {
 			h.step(sim, is_chain_tag(tag))?;
+			if k % 3 == 0 {
+				h.check_manager(sim, (k / 3) % sim.w.n)?;
+			}
 		}
 	}
 	let st = &h.stats;
@@ -72,6 +76,8 @@ fn monitors_inner(c: &Case, ctx: &mut Ctx, sim: &mut Sim) -> CaseResult {
 	ctx.label_if(st.commute_modulo_events > 0, "commute-modulo-drained-events");
 	ctx.label_if(st.eq_exempt_failed_back > 0, "eq-exempt:failed-back-set");
 	ctx.label_if(st.byte_unstable_images > 0, "image-reencoding-reordered");
+	ctx.label_if(st.manager_live_compared > 0, "manager-compared-to-live-while-disconnected");
+	ctx.label_if(st.manager_same_len < st.manager_images, "manager-reencoding-length-differs");
 	ctx.label_if(st.states_with_pending_htlcs > 0, "state:pending-htlc");
 	ctx.label_if(st.states_with_inflight_update > 0, "state:update-in-flight");
 	ctx.label_if(st.states_awaiting_conf > 0, "state:onchain-awaiting-conf");
@@ -118,6 +124,9 @@ fn twin_strat() -> impl Strategy<Value = TwinCase> {
 fn twin_oracle(c: &TwinCase, ctx: &mut Ctx) -> CaseResult {
 	let mut a = c.spec.build(true);
 	let mut b = c.spec.build(true);
+	// channel establishment is not reorged (funding reorgs are C07/C11's subject)
+	a.min_reorg_floor = a.chain.height();
+	b.min_reorg_floor = b.chain.height();
 	let r = twin_inner(c, ctx, &mut a, &mut b);
 	if ctx.replay && r.is_err() {
 		println!("==== history of the original world ====\n{}", dump_history(&a));
@@ -157,7 +166,8 @@ fn twin_inner(c: &TwinCase, ctx: &mut Ctx, a: &mut Sim, b: &mut Sim) -> CaseResu
 	// both worlds went through the same history: they must look the same (otherwise the simulator or the
 	// library is not deterministic enough for this comparison; no verdict)
 	let m0 = ForkMark { log_pos: 0, bc_pos: vec![0; a.w.n] };
-	if let Some((k, _, _)) = surface_diff(&surface(a, &m0), &surface(b, &m0)) {
+	let mut notes = vec![];
+	if let Some((k, _, _)) = surface_diff(&surface(a, &m0), &surface(b, &m0), &mut notes) {
 		if lenient {
 			vcore::report(&format!("prefix diverged in {}", k));
 		}
@@ -193,7 +203,14 @@ fn twin_inner(c: &TwinCase, ctx: &mut Ctx, a: &mut Sim, b: &mut Sim) -> CaseResu
 			return Ok(false);
 		}
 		compared += 1;
-		if let Some((k, oa, ob)) = surface_diff(&surface(a, &ma), &surface(b, &mb)) {
+		let mut notes = vec![];
+		let d = surface_diff(&surface(a, &ma), &surface(b, &mb), &mut notes);
+		notes.sort();
+		notes.dedup();
+		for n in notes {
+			ctx.label(&n);
+		}
+		if let Some((k, oa, ob)) = d {
 			let class = k.split('.').last().unwrap_or("").to_string();
 			if lenient && std::env::var("C12_TWIN_ONLY").map(|v| v != class).unwrap_or(true) {
 				ctx.label(&format!("diff:{}", class));
@@ -289,10 +306,88 @@ fn twin_inner(c: &TwinCase, ctx: &mut Ctx, a: &mut Sim, b: &mut Sim) -> CaseResu
 	Ok(())
 }
 
+// ---------------------------------------------------------------------------------------------------
+// (e) + (f): unknown TLV records, truncations and single-byte corruptions of harvested encodings
+// ---------------------------------------------------------------------------------------------------
+
+#[derive(Clone, Debug, Serialize, Deserialize)]
+struct CorruptCase {
+	spec: WorldSpec,
+	ops: Vec<Op>,
+	/// which harvested object of each kind (monitor, update, manager)
+	objs: [u16; 3],
+	odd_value: Vec<u8>,
+	cuts: Vec<u32>,
+	muts: Vec<(u32, u8)>,
+}
+
+fn corrupt_strat() -> impl Strategy<Value = CorruptCase> {
+	(
+		world_spec(vec![Topology::Pair, Topology::Line3]),
+		proptest::collection::vec(op_strategy(weights()), 10..50),
+		any::<[u16; 3]>(),
+		proptest::collection::vec(any::<u8>(), 0..40),
+		proptest::collection::vec(any::<u32>(), 24..25),
+		proptest::collection::vec((any::<u32>(), 1u8..=255), 40..41),
+	)
+		.prop_map(|(spec, ops, objs, odd_value, cuts, muts)| CorruptCase { spec, ops, objs, odd_value, cuts, muts })
+}
+
+fn corrupt_oracle(c: &CorruptCase, ctx: &mut Ctx) -> CaseResult {
+	let mut sim = c.spec.build(true);
+	sim.min_reorg_floor = sim.chain.height();
+	let mut h = MonHarvest::new(&sim, true);
+	h.reread_every = u64::MAX;
+	for (k, op) in c.ops.iter().enumerate() {
+		let tag = apply(&mut sim, &c.spec, op);
+		h.step(&sim, is_chain_tag(tag))?;
+		if k % 5 == 0 {
+			h.check_manager(&sim, (k / 5) % sim.w.n)?;
+		}
+	}
+	let n = sim.w.n;
+	h.check_manager(&sim, pick(c.objs[2], n))?;
+	let mut st = CorruptStats::default();
+	let mut nonq = false;
+	// prefer non-quiescent monitor states
+	let mons: Vec<&Harvested> = {
+		let nq: Vec<&Harvested> = h.kept_monitors.iter().filter(|m| m.nonquiescent).collect();
+		if nq.is_empty() { h.kept_monitors.iter().collect() } else { nq }
+	};
+	if !mons.is_empty() {
+		let o = mons[pick(c.objs[0], mons.len())];
+		nonq |= o.nonquiescent;
+		let cx = Corruptor::new(&sim, o.node, Kind::Monitor);
+		corrupt_object(&cx, &o.bytes, &c.odd_value, &c.cuts, &c.muts, 0, &mut st)?;
+	}
+	if !h.kept_updates.is_empty() {
+		let o = &h.kept_updates[pick(c.objs[1], h.kept_updates.len())];
+		let cx = Corruptor::new(&sim, o.node, Kind::Update);
+		corrupt_object(&cx, &o.bytes, &c.odd_value, &c.cuts, &c.muts, 600, &mut st)?;
+		nonq = true;
+	}
+	{
+		// the manager as it is now (its monitors are the live ones)
+		let o = h.kept_managers.last().unwrap();
+		let cx = Corruptor::new(&sim, o.node, Kind::Manager);
+		let k = c.muts.len() / 2;
+		corrupt_object(&cx, &o.bytes, &c.odd_value, &c.cuts[..c.cuts.len() / 2], &c.muts[..k], 0, &mut st)?;
+	}
+	ctx.sub_evaluations(st.odd_ok + st.even_err + st.prefixes + st.mutations_err + st.mutations_ok_same + st.mutations_ok_other);
+	ctx.label_if(st.tail_ambiguous > 0, "tlv-tail-not-located");
+	ctx.label_if(st.tail_located > 0, "tlv-tail-located");
+	ctx.label_if(st.mutations_ok_other > 0, "mutation-read-as-different-object");
+	ctx.label_if(st.mutations_ok_same > 0, "mutation-read-as-same-object");
+	ctx.nontrivial_if(nonq && st.tail_located > 0);
+	ctx.summary(json!({"topo": format!("{:?}", c.spec.topo), "stats": format!("{:?}", st)}));
+	Ok(())
+}
+
 fn main() {
 	install_recording_signer();
 	let mut c = Check::new("C12", "exploration");
 	c.part_with(PartSpec { name: "monitors", rule: "wip", quick_cases: 400, thorough_cases: 20_000, max_shrink: 300 }, || strat(70), monitors_oracle);
 	c.part_with(PartSpec { name: "manager-twin", rule: "wip", quick_cases: 300, thorough_cases: 10_000, max_shrink: 300 }, twin_strat, twin_oracle);
+	c.part_with(PartSpec { name: "corruptions", rule: "wip", quick_cases: 150, thorough_cases: 5_000, max_shrink: 200 }, corrupt_strat, corrupt_oracle);
 	c.finish();
 }
